@@ -5,7 +5,7 @@ EXTENDS FoxConc, Gen_Conc, TLC, Json
 
 Proj(h, l, ws, rs) ==
   [pub |-> h[Len(h)], ver |-> Len(h), lock |-> l,
-   w |-> [i \in DOMAIN ws |-> [pc |-> ws[i].pc, step |-> ws[i].step]],
+   w |-> [i \in DOMAIN ws |-> [pc |-> ws[i].pc, step |-> ws[i].step, res |-> ws[i].res, work |-> ws[i].work, base |-> ws[i].base]],
    rd |-> [j \in DOMAIN rs |-> [pc |-> rs[j].pc, seen |-> rs[j].seen, n |-> rs[j].n, call |-> rs[j].call]]]
 
 EmitEdge ==
